@@ -18,6 +18,11 @@ pub struct TCell {
     pub th: bool,
     /// every <br>-separated segment becomes a <p> of its own (blank line between them)
     pub paras: bool,
+    /// number of <br> after the last word; a cell without words that holds a <br>
+    /// renders one blank line, which makes its row a row with content
+    pub trail_br: usize,
+    /// presentational attribute the renderer has no use for (align, valign, width)
+    pub attr: Option<(&'static str, &'static str)>,
 }
 
 impl TCell {
@@ -29,6 +34,10 @@ impl TCell {
                 .as_ref()
                 .map(|n| n.all_text().is_empty())
                 .unwrap_or(true)
+    }
+    /// renders at least one (possibly blank) line
+    pub fn renders(&self) -> bool {
+        !self.is_empty() || (self.words.is_empty() && self.nested.is_none() && self.trail_br > 0)
     }
     /// the cell's own text, words concatenated
     pub fn text(&self) -> String {
@@ -100,10 +109,18 @@ impl TTable {
                         }
                     }
                 }
+                if !c.paras || c.words.is_empty() {
+                    for _ in 0..c.trail_br {
+                        content.push(El::new("br").node());
+                    }
+                }
                 if let Some(n) = &c.nested {
                     content.push(n.to_node());
                 }
                 let mut e = El::with(if c.th { "th" } else { "td" }, content);
+                if let Some((k, v)) = c.attr {
+                    e.attrs.push((k.into(), v.into()));
+                }
                 if c.span > 1 {
                     e.attrs.push(("colspan".into(), c.span.to_string()));
                 }
@@ -215,7 +232,7 @@ impl TTable {
     /// Rows that have at least one non-empty cell (others are not rendered).
     pub fn visible_rows(&self) -> Vec<usize> {
         (0..self.rows.len())
-            .filter(|&r| self.rows[r].iter().any(|c| !c.is_empty()))
+            .filter(|&r| self.rows[r].iter().any(|c| c.renders()))
             .collect()
     }
 }
@@ -252,6 +269,8 @@ pub fn make_cell(rng: &mut Rng, tok: &mut Tokens, kind: Content, span: usize, wi
         nested: None,
         th: rng.chance(1, 8),
         paras: false,
+        trail_br: 0,
+        attr: None,
     }
 }
 
@@ -290,6 +309,22 @@ pub fn gen_table(rng: &mut Rng, tok: &mut Tokens, depth: usize, allow_nested: bo
                 Content::Long
             };
             let mut cell = make_cell(rng, tok, kind, span, wide);
+            // <br> at the end of a cell (alone in an otherwise empty cell it is the
+            // whole content of the cell); presentational attributes
+            if rng.chance(1, 16) {
+                cell.trail_br = rng.range(1, 2);
+            }
+            if rng.chance(1, 10) {
+                cell.attr = Some(*rng.pick(&[
+                    ("align", "right"),
+                    ("align", "center"),
+                    ("align", "left"),
+                    ("align", "justify"),
+                    ("valign", "bottom"),
+                    ("width", "50%"),
+                    ("nowrap", ""),
+                ]));
+            }
             if allow_nested && depth < 2 && rng.chance(1, 12) {
                 cell.nested = Some(Box::new(gen_table(rng, tok, depth + 1, true)));
             }
